@@ -2,9 +2,12 @@ package h
 
 import (
 	"fmt"
+	"os"
 	"regexp"
 	"strconv"
 	"time"
+
+	"pgregory.net/rapid"
 )
 
 // C09 — Check does the promised amount of work and never passes vacuously.
@@ -67,8 +70,50 @@ func countGen(cr *CheckRun) genCounts {
 
 var reOKn = regexp.MustCompile(`OK, passed (\d+) tests`)
 
+// scenarioC09RealT: the same counting oracle through MakeCheck on a real *testing.T sub-test of the worker (which runs
+// with -test.timeout 0, i.e. WITHOUT a test deadline), outside any bubble: the deadline logic for real tests.
+func scenarioC09RealT(rc *RunCtx) {
+	t := rc.T
+	N := []int{1, 2, 5, 20}[t.Pick("c09.real.checks", 4)]
+	skipEvery := t.Int("c09.real.skip_every", 0, 4) // 0: never skips
+	fl := Flags{Checks: N, Steps: 3, Seed: 1 + t.Draw("c09.seed", 1<<32), ShrinkTime: time.Second, NoFailFile: true}
+	fl.Apply()
+	old, _ := os.Getwd()
+	dir := rc.FreshDir()
+	_ = os.Chdir(dir)
+	defer os.Chdir(old)
+	calls, valid := 0, 0
+	passed := curT.Run("realT", rapid.MakeCheck(func(rt *rapid.T) {
+		calls++
+		v := rapid.IntRange(0, 1000).Draw(rt, "v")
+		if skipEvery > 0 && calls%(skipEvery+1) == 0 {
+			rt.Skip("skip", v)
+		}
+		valid++
+	}))
+	rc.Inc("leg.real_testing_T")
+	rc.Inc("checks_run")
+	rc.Add("invocations", calls)
+	rc.Sample = fmt.Sprintf("real *testing.T leg (no test deadline): N=%d skipEvery=%d -> %d invocations, %d valid, passed=%v", N, skipEvery, calls, valid, passed)
+	rc.Tracef("%s", rc.Sample)
+	rc.Key = MixSeed(uint64(N), uint64(skipEvery), fl.Seed)
+	rc.Nontriv = calls > 0
+	rc.MixHash(MixSeed(uint64(calls), uint64(valid)))
+	if !passed {
+		rc.V(viol("C09.R1", "realT-failed", "MakeCheck on a real *testing.T failed a property that is never falsified (N=%d, %d invocations, %d valid)", N, calls, valid))
+		return
+	}
+	if valid != N {
+		rc.V(viol("C09.R1", "realT-wrong-count", "MakeCheck on a real *testing.T without a deadline ran %d valid test cases, -rapid.checks=%d (%d invocations)", valid, N, calls))
+	}
+}
+
 func scenarioC09(rc *RunCtx) {
 	t := rc.T
+	if t.Chance("c09.realT", 8) {
+		scenarioC09RealT(rc)
+		return
+	}
 	failing := t.Chance("c09.failing", 20)
 	pf := &Profile{MaxStmts: 6, PSkip: 0, PRepeat: 15, PCustom: 20, PCleanup: 10, PCtx: 5, PLog: 10}
 	switch t.Weighted("c09.skipmode", 3, 4, 2) {
